@@ -246,8 +246,32 @@ func checkLimiterCreation(c *engine.Ctx, rule string) {
 			}}, "limiter only for this side's mode and a positive limit")
 		})
 	}
-	_ = p
-	c.Floor(n, 2)
+	// the validator accepts exactly the spellings the two sides compare with: it tests the raw field (both NewProxy
+	// functions compare the raw string with == "client" / == "server"; a validator that normalises first lets
+	// "Server" through and then neither side throttles)
+	if modeF := p.Field("pkg/config/v1", "ProxyTransport", "BandwidthLimitMode"); modeF != nil {
+		for _, f := range p.RepoFuncs() {
+			if f.Pkg == nil || !strings.HasSuffix(f.Pkg.Pkg.Path(), "/pkg/config/v1/validation") {
+				continue
+			}
+			engine.ForEachInstr(f, func(in ssa.Instruction) {
+				call, ok := in.(*ssa.Call)
+				if !ok || !isSlicesContains(call) {
+					return
+				}
+				arg := call.Call.Args[len(call.Call.Args)-1]
+				src := engine.Provenance(arg, engine.ProvOpts{})
+				if !src.HasField(modeF) {
+					return
+				}
+				n++
+				lf, _ := engine.LoadedField(engine.Unwrap(arg))
+				c.Check(lf == modeF && len(src.Calls) == 0, p.FuncName(f)+">mode-validated-as-compared", call.Pos(), 1, []string{"tested value: " + engine.Describe(arg)},
+					"the validator tests the raw BandwidthLimitMode, the same string the limiter sides compare")
+			})
+		}
+	}
+	c.Floor(n, 3)
 }
 
 // ---- R4 ----
@@ -665,6 +689,51 @@ func checkRecycle(c *engine.Ctx, rule string) {
 						bad = "the pooled codec is recycled at " + p.Pos(cc.Pos()) + " before the streams are joined"
 					}
 				}
+			}
+			// a deferred recycle runs at *every* exit: that is only right when every exit is behind the join. A function
+			// that can hand the stream to someone who keeps using it after the function returned (a client plugin's
+			// Handle, a listener hand-off) must not defer it.
+			deferred := false
+			engine.ForEachInstr(f, func(x ssa.Instruction) {
+				d, ok := x.(*ssa.Defer)
+				if !ok {
+					return
+				}
+				v := d.Call.Value
+				if u, ok := v.(*ssa.UnOp); ok && u.Op == token.MUL {
+					// deferred through a cell: any store of the recycle func into it
+					if al, ok := u.X.(*ssa.Alloc); ok && al.Referrers() != nil {
+						for _, r := range *al.Referrers() {
+							if st, ok := r.(*ssa.Store); ok {
+								if cl, i := engine.ResultOfCall(st.Val); cl == call && i == 1 {
+									deferred = true
+								}
+							}
+						}
+					}
+				}
+				if cl, i := engine.ResultOfCall(v); cl == call && i == 1 {
+					deferred = true
+				}
+			})
+			if deferred && bad == "" {
+				engine.ForEachInstr(f, func(x ssa.Instruction) {
+					ci, ok := x.(ssa.CallInstruction)
+					if !ok {
+						return
+					}
+					if o := engine.CalleeObj(ci); o != nil && o.Name() == "PutConn" && o.Pkg() != nil && strings.HasSuffix(o.Pkg().Path(), "/pkg/util/net") {
+						bad = "the recycle function is deferred, but the function hands the stream to a listener at " + p.Pos(ci.Pos()) + " and returns while the stream is still in use: the codec goes back to the pool in use and the next compressed stream is cross-wired with this one"
+						return
+					}
+					if !ci.Common().IsInvoke() || ci.Common().Method.Name() != "Handle" {
+						return
+					}
+					if pk := ci.Common().Method.Pkg(); pk == nil || !strings.HasSuffix(pk.Path(), "/pkg/plugin/client") {
+						return
+					}
+					bad = "the recycle function is deferred, but the function also hands the stream to a client plugin at " + p.Pos(ci.Pos()) + " (Handle returns while the plugin keeps using the connection): the codec goes back to the pool in use and the next compressed connection is cross-wired with this one"
+				})
 			}
 			c.Check(bad == "", name+">recycle", call.Pos(), len(states)+1, nil, "recycle only via defer or after the join (%s)", bad)
 		})
